@@ -176,14 +176,15 @@ func genVal(t *rapid.T, ty byte, label string) uint64 {
 }
 
 type bodyGen struct {
-	t       *rapid.T
-	spec    *modSpec
-	sigs    []sig  // signature per function index (imports first, then all local functions)
-	self    int    // function index of the function being generated
-	locals  []byte // params followed by locals
-	nparams int
-	budget  int
-	typeIdx func(p, r []byte) uint32
+	t        *rapid.T
+	spec     *modSpec
+	sigs     []sig  // signature per function index (imports first, then all local functions)
+	self     int    // function index of the function being generated
+	locals   []byte // params followed by locals
+	nparams  int
+	budget   int
+	typeIdx  func(p, r []byte) uint32
+	reserved map[uint32]bool // loop counters
 }
 
 func (g *bodyGen) pick(n int, label string) int { return rapid.IntRange(0, n-1).Draw(g.t, label) }
@@ -191,7 +192,7 @@ func (g *bodyGen) pick(n int, label string) int { return rapid.IntRange(0, n-1).
 func (g *bodyGen) localsOf(ty byte) []uint32 {
 	var r []uint32
 	for i, l := range g.locals {
-		if l == ty {
+		if l == ty && !g.reserved[uint32(i)] {
 			r = append(r, uint32(i))
 		}
 	}
@@ -454,7 +455,11 @@ func (g *bodyGen) stmt(b *wasmenc.B, depth int) {
 		}
 	case 6: // bounded loop
 		if depth < 2 && g.budget > 4 {
-			c := g.newLocal(tI32)
+			c := g.newLocal(tI32) // private loop counter: never a target of generated local.set/tee
+			if g.reserved == nil {
+				g.reserved = map[uint32]bool{}
+			}
+			g.reserved[c] = true
 			b.I32Const(int32(1 + g.pick(6, "iters"))).LocalSet(c)
 			b.Loop()
 			n := 1 + g.pick(2, "loop-stmts")
